@@ -71,6 +71,7 @@ class Unit:
         self.rules = []          # unit-wide rules applied after the function's own
         self.prelude = ""        # C text emitted before the functions (struct definitions)
         self.shared_decls = ""   # generated declarations visible to the harness/lemma file too (prelude_gen.h)
+        self.extra_members = {}  # model struct -> C declarations of scalar data members found in the class but not in the model (members_gen.h)
         self.stubs = []          # names of nitro_rt functions with assumed contracts
         self.members = {}        # class key -> [(type, name, default)]
         self.member_init = {}    # class key -> callable(type, name, expr|None) -> C statement
@@ -166,7 +167,7 @@ class Unit:
         return "\n" + "\n".join("    " + l for l in lines) + "\n"
 
     def generate(self):
-        parts = ['#include "nitro_rt.h"\n#include "contracts.h"\n#include "prelude_gen.h"\n', self.prelude]
+        parts = ['#include "nitro_rt.h"\n#include "members_gen.h"\n#include "contracts.h"\n#include "prelude_gen.h"\n', self.prelude]
         bodies = []
         for f in self.functions:
             bodies.append(self.render_function(f))
